@@ -1318,6 +1318,14 @@ class State:
         return self.binop(op, a, b, e.get('ty', ''))
 
     def binop(self, op, a, b, ty):
+        if op in ('Eq', 'Ne') and a[0] == 'ctor' and b[0] == 'ctor' and a[1] == b[1] and a[1] in (OPTION, RESULT, 'core::option::Option'):
+            # Some(x) == Some(y)  <=>  x == y ;  Some(_) == None is false (derived PartialEq of Option / Result)
+            if a[2] != b[2]:
+                return lit(op == 'Ne', 'bool')
+            if not a[3] and not b[3]:
+                return lit(op == 'Eq', 'bool')
+            if len(a[3]) == 1 and len(b[3]) == 1:
+                return self.binop(op, a[3][0][1], b[3][0][1], ty)
         if a[0] == 'lit' and b[0] == 'lit' and not isinstance(a[1], str):
             x, y = a[1], b[1]
             try:
